@@ -405,8 +405,8 @@ theorem pAllocDelete_all (c : Nat) : All (QEvo N) (pAllocDelete (R := R) c) :=
     dsimp only
     split
     · exact ⟨rfl, .done _⟩
-    · exact ⟨rfl, All.txn' _ _ (fun _ => ⟨QEvo.of_gcore rfl,
-        All.txn' _ _ (fun db' => ⟨fun hI => deleteConsumersIfNoAllocs_evo db' _ hI, .done _⟩)⟩)⟩)
+    · exact ⟨rfl, All.txn' _ _ (fun db' =>
+        ⟨fun hI => EvoG.consFilter (a := db'.gcore) hI _, .done _⟩)⟩)
 
 theorem other_all (cfg : Config) (op : Op R) (h : ∀ db, QEvo N db (step cfg db op).1) :
     All (QEvo N) (.txn .other (stepTxn cfg op)) :=
